@@ -113,4 +113,27 @@ Section WithTables.
     let id := m_clean (fst (fst x)) (snd (fst x)) (snd x) in (id, method_name id).
   Definition run_clean (cases : list (((str * str) * str) * (str * str))) : list N :=
     report (pair_eqb str_eqb str_eqb) clean_obs (fun _ => []) cases.
+  (* end to end, operations of one client class: _deduplicate_operation_ids_globally is GLOBAL (all operations,
+     regardless of tag); emit() then groups the operations by normalize_tag_key(tag or "default").  Observation:
+     the method-name lists of the generated client classes, as a sorted list of lists. *)
+  Definition s_default : str := [100;101;102;97;117;108;116].
+  Fixpoint lstr_leb (a b : list str) : bool :=
+    match a, b with
+    | [], _ => true
+    | _ :: _, [] => false
+    | x :: a', y :: b' => if str_eqb x y then lstr_leb a' b' else str_leb x y
+    end.
+  Fixpoint nodup_keys (seen : list str) (l : list str) : list str :=
+    match l with
+    | [] => []
+    | k :: r => if mem_str k seen then nodup_keys seen r else k :: nodup_keys (k :: seen) r
+    end.
+  Definition tagops_obs (x : list (str * option str)) : list (list str) :=
+    let names := map method_name (dedup_ops (map fst x)) in
+    let keys := map (fun p => m_tag_key (match snd p with Some t => t | None => s_default end)) x in
+    let kn := combine keys names in
+    isort lstr_leb
+      (map (fun k => map snd (filter (fun p => str_eqb (fst p) k) kn)) (nodup_keys [] keys)).
+  Definition run_tagops (cases : list (list (str * option str) * list (list str))) : list N :=
+    report (list_eqb (list_eqb str_eqb)) tagops_obs (fun _ => []) cases.
 End WithTables.
